@@ -26,7 +26,7 @@ MsgLists == {<< >>} \cup {<<a>> : a \in Atoms} \cup {<<a, b>> : a \in {Oracle, S
 LaneCases == {[msgs |-> ms] : ms \in MsgLists}
 
 People == {"w1", "w2", "u1"}
-FreeCases == {[payer |-> p, granter |-> g, whitelist |-> w] : p \in People, g \in People \cup {""}, w \in SUBSET {"w1", "w2"}}
+FreeCases == {[payer |-> p, granter |-> g, whitelist |-> w] : p \in People, g \in People \cup {""}, w \in (SUBSET {"w1", "w2"}) \cup {{"bad:empty"}, {"w1", "bad:empty"}}}
 
 DepSeqs == {1, 2, 3, 4, 5}
 RMsgs == {SendM} \cup {Dep(q) : q \in DepSeqs} \cup {DepB(3), DepB(2)}
